@@ -489,11 +489,12 @@ func runC10(r *engine.Run) {
 	// (the Encrypt* methods work on their own copy and swap in a new payload)
 	gOps := []string{"MarshalBinary", "MarshalText", "ValidateUplinkDataMIC", "ValidateUplinkDataMICF", "SetUplinkDataMIC", "EncryptFRMPayload", "DecryptFRMPayload", "EncryptFOpts", "MarshalJSON"}
 	gLens := []int{0, 1, 15, 16, 17, 32, 33}
-	spG := (&engine.Space{}).Dim("op", len(gOps)).Dim("frm first element length", len(gLens)).Dim("frm elements{1, 2, 3 with an empty one in the middle, 3 with an empty one first}", 4).Dim("fopts length{0,3,15}", 3).Dim("spare capacity{0,1,40}", 3)
+	spG := (&engine.Space{}).Dim("op", len(gOps)).Dim("frm first element length", len(gLens)).Dim("frm elements{1, 2, 3 with an empty one in the middle, 3 with an empty one first}", 4).Dim("fopts length{0,3,15}", 3).Dim("spare capacity{0,1,40}", 3).Dim("element kind{opaque bytes, proprietary MAC command (CID 0x80) around the bytes}", 2)
 	r.PartDims("guarded-payload-buffers", spG.Desc(), spG.N(), func(c *engine.Case) {
-		var ch [5]int
+		var ch [6]int
 		spG.Decode(c.Index, ch[:])
 		spare := []int{0, 1, 40}[ch[4]]
+		asCommand := ch[5] == 1
 		type buf struct {
 			arena  []byte
 			off, n int
@@ -512,6 +513,9 @@ func runC10(r *engine.Run) {
 		mp := &lorawan.MACPayload{FHDR: lorawan.FHDR{DevAddr: lorawan.DevAddr{1, 2, 3, 4}, FCnt: 5}, FPort: &port}
 		if n := []int{0, 3, 15}[ch[3]]; n > 0 {
 			mp.FHDR.FOpts = []lorawan.Payload{&lorawan.DataPayload{Bytes: mk(n, 0x21)}}
+			if asCommand {
+				mp.FHDR.FOpts = []lorawan.Payload{&lorawan.MACCommand{CID: 0x80, Payload: &lorawan.ProprietaryMACCommandPayload{Bytes: mk(n-1, 0x21)}}}
+			}
 		}
 		if n := gLens[ch[1]]; n > 0 || ch[2] == 1 {
 			mp.FRMPayload = []lorawan.Payload{&lorawan.DataPayload{Bytes: mk(n, 0x42)}}
@@ -522,6 +526,13 @@ func runC10(r *engine.Run) {
 				mp.FRMPayload = append(mp.FRMPayload, &lorawan.DataPayload{}, &lorawan.DataPayload{Bytes: mk(5, 0x63)})
 			case 3:
 				mp.FRMPayload = append([]lorawan.Payload{&lorawan.DataPayload{}}, append(mp.FRMPayload, &lorawan.DataPayload{Bytes: mk(5, 0x63)})...)
+			}
+		}
+		if asCommand && len(mp.FHDR.FOpts) == 0 {
+			// without FOpts the commands travel as the port-0 payload
+			port = 0
+			for i, el := range mp.FRMPayload {
+				mp.FRMPayload[i] = &lorawan.MACCommand{CID: 0x80, Payload: &lorawan.ProprietaryMACCommandPayload{Bytes: el.(*lorawan.DataPayload).Bytes}}
 			}
 		}
 		p := lorawan.PHYPayload{MHDR: lorawan.MHDR{MType: lorawan.ConfirmedDataUp}, MACPayload: mp}
